@@ -256,9 +256,9 @@ def hybrid_rush_larsen(
         linearized = sympy.Symbol(linearized_name)
         eqs.append(printer(linearized, expr_diff, use_variable_prefix=True))
 
-        need_zero_div_check = not fraction_numerator_is_nonzero(expr_diff)
-        if not need_zero_div_check:
-            logger.debug(f"{linearized_name} cannot be zero. Skipping zero division check")
+        # Even if the linearization cannot be exactly zero (e.g. 1/tau or 1/(1 + exp(V)))
+        # it can be arbitrarily close to zero, so the zero division check is always needed
+        need_zero_div_check = True
 
         RL_term = x.symbol / linearized * (sympy.exp(linearized * dt) - 1)
         if need_zero_div_check:
@@ -348,9 +348,9 @@ def generalized_rush_larsen(
         linearized = sympy.Symbol(linearized_name)
         eqs.append(printer(linearized, expr_diff, use_variable_prefix=True))
 
-        need_zero_div_check = not fraction_numerator_is_nonzero(expr_diff)
-        if not need_zero_div_check:
-            logger.debug(f"{linearized_name} cannot be zero. Skipping zero division check")
+        # Even if the linearization cannot be exactly zero (e.g. 1/tau or 1/(1 + exp(V)))
+        # it can be arbitrarily close to zero, so the zero division check is always needed
+        need_zero_div_check = True
 
         RL_term = x.symbol / linearized * (sympy.exp(linearized * dt) - 1)
         if need_zero_div_check:
